@@ -1,6 +1,6 @@
 """Helper for C19 (not a property module): cross-check `Mjw.PairFilter.proto` (Model/PairFilter.lean) against the
-real `mujoco_warp.put_model` on random MJCF models (random trees, welded bodies, random contype/conaffinity,
-excludes, explicit pairs incl. duplicated, reversed and degenerate self pairs, filterparent on/off).
+real `mujoco_warp.put_model` on random MJCF models (random trees, welded bodies, random contype/conaffinity - 2-bit
+masks and, in rotation, 32-bit masks with bit 31 set (-1, -2147483648, mixed) - excludes, explicit pairs incl. duplicated, reversed and degenerate self pairs, filterparent on/off).
 
   python -m harness.props._c19_crosscheck [seed] [ncases]
 
@@ -26,7 +26,23 @@ def main : IO Unit := do
 """
 
 
-def gen(rng):
+BIT31 = -(2 ** 31)
+# 32-bit masks that use the sign bit of the int32 they are stored in: "all groups" (-1), bit 31 alone, bit 31 plus low bits,
+# everything but bit 0, and (positive) everything but bit 31
+HIGH_POOL = (-1, BIT31, BIT31 | 1, BIT31 | 2, -2, 2 ** 31 - 1)
+MASK_MODES = ("small", "bit31", "small", "mixed")   # rotation used by callers: mode of case c is MASK_MODES[c % 4]
+
+
+def draw_mask(rng, mode):
+  """one contype / conaffinity value.  small: 2-bit masks; bit31: masks with bit 31 (or 0); mixed: either, per value"""
+  if mode == "bit31" or (mode == "mixed" and rng.random() < 0.5):
+    return 0 if rng.random() < 0.12 else rng.choice(HIGH_POOL)
+  return rng.randint(0, 3)
+
+
+def gen(rng, masks="small", tight=False):
+  """masks: see draw_mask.  tight: all geoms of the model overlap (body offsets and geom offsets are small against the radius),
+  so that every pair that survives the filter has a contact in MuJoCo"""
   nb = rng.randint(1, 6)
   # half of the models are (mostly) chains with a geom on every body: the parent/child filter rules depend on jointless bodies
   # welded into a jointed ancestor two or more levels below the world, which random shallow trees rarely contain
@@ -43,12 +59,12 @@ def gen(rng):
   def geoms():
     s = ""
     for _ in range(rng.randint(1 if chain else 0, 2)):
-      s += f'<geom name="g{gcount[0]}" size="0.1" pos="{rng.random()} 0 0" contype="{rng.randint(0, 3)}" conaffinity="{rng.randint(0, 3)}"/>'
+      s += f'<geom name="g{gcount[0]}" size="0.1" pos="{rng.random() * (0.05 if tight else 1.0)} 0 0" contype="{draw_mask(rng, masks)}" conaffinity="{draw_mask(rng, masks)}"/>'
       gcount[0] += 1
     return s
 
   def body(b):
-    s = f'<body name="b{b}" pos="0 0 {b}">'
+    s = f'<body name="b{b}" pos="0 0 {0.004 * b if tight else b}">'
     if b != nojoint and (rng.random() < 0.6 or (chain and b < nojoint)):
       s += '<joint type="hinge"/>'
     s += '<inertial pos="0 0 0" mass="1" diaginertia="1 1 1"/>' + geoms()
@@ -96,8 +112,8 @@ def run(seed=0, ncases=100):
                        stdout=subprocess.PIPE, text=True)
   ok, bad, nself = 0, [], 0
   try:
-    for _ in range(ncases):
-      xml = gen(rng)
+    for c in range(ncases):
+      xml = gen(rng, MASK_MODES[c % 4], c % 2 == 1)
       try:
         mjm = mujoco.MjModel.from_xml_string(xml)
       except Exception:
